@@ -343,12 +343,18 @@ func retryAltLoops(w *World, o *Options, encs []*Enc, obls []*Obligation, workDi
 				bad1++
 			}
 		}
+		leftSubset := false
 		for _, ob := range obls2 {
 			if ob.Status != "discharged" {
 				bad2++
+				// an alternative set that does not even fit the body (its encoding stops at #subset: one open
+				// obligation standing for all) is never "closer" than the primary set
+				if strings.Contains(ob.Name, "#subset") {
+					leftSubset = true
+				}
 			}
 		}
-		if len(obls2) == 0 || bad2 >= bad1 {
+		if len(obls2) == 0 || bad2 >= bad1 || leftSubset {
 			continue
 		}
 		if bad2 == 0 {
